@@ -2,6 +2,7 @@
 # tools/confirm_demo.sh <ID> <m> <crate> <crate-dir> [extra cargo args]  — demo passes without / fails with the patch,
 # existing lib tests of the crate pass with the patch; in the scratch worktree /tmp/confirm-wt.
 set -u
+export CARGO_INCREMENTAL=0
 id="$1"; m="$2"; crate="$3"; cdir="$4"; shift 4
 base="${MUT_BASE:-/tmp/mut}"
 cd /tmp/confirm-wt || exit 2
